@@ -45,6 +45,7 @@ type supObs struct {
 	// Judged with the harness's own bookkeeping (which generation / how many Select commits at the inject),
 	// not with the supervisor's counters.
 	staleDisc string
+	lostDisc  string // a disconnect of the CURRENT generation that did not take effect when processed
 	staleT7   string
 	mirrorBad string // harness self-check: its mirror of the events queue disagrees with what was dequeued
 }
@@ -237,6 +238,13 @@ func execSup(acts []string) (o supObs) {
 					o.staleDisc = fmt.Sprintf("a disconnect reported in TCP generation %d was processed in generation %d and moved State() %d -> %d (reactions fired: %d)",
 						head.gen, ghostGen, stBeforeStore, v.State(), len(v.Reactions)-nReact)
 				}
+				// the converse: a disconnect reported in the CURRENT generation takes effect when it is processed, whatever
+				// commits landed inside the load/store window ("each change takes effect exactly when its cause does");
+				// only T7 yields to a commit in the window (after seeded change C05d-1: the disconnect store made a CAS)
+				if evDone == 3 && head.gen == ghostGen && stBeforeStore != hsms.NotConnectedState && v.State() != hsms.NotConnectedState && o.lostDisc == "" {
+					o.lostDisc = fmt.Sprintf("a disconnect reported in the current TCP generation %d was processed but State() is %d afterwards (it was %d before the store; actions inside the load/store window: %v)",
+						head.gen, v.State(), stBeforeStore, window)
+				}
 				if evDone == 5 && head.sel < ghostSel && acted && o.staleT7 == "" {
 					o.staleT7 = fmt.Sprintf("a T7 expiry reported before Select commit #%d was processed after it and moved State() %d -> %d (reactions fired: %d)",
 						ghostSel, stBeforeStore, v.State(), len(v.Reactions)-nReact)
@@ -412,6 +420,9 @@ func supOracles(c *Ctx, acts []string, o supObs) {
 	}
 	if o.staleT7 != "" {
 		c.Violate("property", "stale-t7", o.staleT7, replay)
+	}
+	if o.lostDisc != "" {
+		c.Violate("property", "current-disconnect-not-applied", o.lostDisc, replay)
 	}
 	prev := 0
 	for i, s := range o.sts {
